@@ -33,8 +33,23 @@ PARTIAL with respect to the full multi-file statement: `.global`, `.import`, `.e
 file boundary; the global task queue of `finalize`).  What the proof would need beyond this file: the task relation
 `TaskRel` for tasks handed to the includer (`global = true`, evaluated in the includer's final table on the tree the
 included file left), tables with deferred entries (`Table.NoDef` fails), and a flattening in which a name of an
-instance may denote a symbol of its includer.  See the final report for the scoping facts of the model that a
-"defined in another file" statement has to respect.
+instance may denote a symbol of its includer.
+
+Facts of the model (and of the implementation: replayed on `trias`) that the reference of the missing stages has to
+respect — each is a point where "a name resolves to its definition wherever that stands" is FALSE as stated:
+* inside an included file `globals` IS the includer's local table (`enterFile`): `.global/.export` of a file at depth ≥ 2
+  publish to its includer only, `.import` reads the includer's table only; the real global table is visible to the
+  main file alone.  Witness `m: .addr 16; .include "i"; .du32 x;`  `i: .include "j"; .du32 x;`  `j: .global x; .const x, 9;`
+  — `i` sees 9, `m` gets "no such local constant x".
+* a name imported while still deferred in the includer can be DEFINED again by the importing file, silently, and then
+  has two values: `m: .addr 16; .global x; .include "i"; .const x, 7; .du32 x;`  `i: .import x; .du32 x; .const x, 9;`
+  assembles to `09 00 00 00 07 00 00 00`; with `.const x, 7` moved above `.global x` the same project is rejected
+  (duplicate constant).
+* a statement handed to the includer (`global = true`) is not handed on: `m: .addr 16; .global x; .include "i"; .const x, 7;`
+  `i: .import x; .include "j";`  `j: .import x; .du32 x;` is rejected ("no such global constant x", placeholder left in
+  the failed image) although the same `.du32 x` one level up (in `i`) assembles, and although it assembles in `j` when
+  `x` is defined above the `.include` in `m`.  None of these produces wrong bytes in a run that SUCCEEDS with a name
+  denoting one definition; they restrict which projects succeed.
 -/
 namespace Trion.Asm
 open Trion Trion.SegLayout Trion.Asm.Multi
